@@ -126,6 +126,10 @@ def token(tok, pos, cfg):
         return host, dict(kind='req', fc=15, address=1, count=3, byte_count=1, bits=[True, False, True])
     if tok == 'I':
         return host, dict(kind='req', fc=0x2B, read_code=1, object_id=0)
+    if tok == 'M1':
+        return host, dict(kind='req', fc=16, address=5, count=1, byte_count=2, registers=[0x0D00 + pos])
+    if tok == 'M3':
+        return host, dict(kind='req', fc=16, address=1, count=3, byte_count=6, registers=[0x0E00 + pos, 0x0E10 + pos, 0x0E20 + pos])
     if tok == 'S':
         return host, b'\x03\x00'          # a frame whose PDU is shorter than its function's layout: handling it raises
     if tok == 'I0':
